@@ -8,6 +8,7 @@ import (
 	"log"
 	"mime"
 	"net/http"
+	"slices"
 	"strings"
 
 	"github.com/issue9/mux/v9/header"
@@ -204,6 +205,7 @@ func (hs *Hosts) emptyHandlerFunc() {}
 //
 //	/path.html
 func NewPathVersion(param string, version ...string) Matcher {
+	version = slices.Clone(version) // 调用方的切片不能被改写
 	for i, v := range version {
 		if v == "" {
 			panic("参数 v 不能为空值")
@@ -238,8 +240,8 @@ func NewHeaderVersion(param, key string, errlog func(error), version ...string) 
 
 	return &headerVersion{
 		paramName: param,
-		acceptKey: key,
-		versions:  version,
+		acceptKey: strings.ToLower(key), // mime.ParseMediaType 返回的参数名均为小写
+		versions:  slices.Clone(version),
 		errlog:    errlog,
 	}
 }
